@@ -64,7 +64,10 @@ def r2(ctx):
     cfg = ana.cfg(fi)
     d = [n for n in cfg.nodes if n.kind == "stmt" and isinstance(n.ast, ast.Assign) and s.base_name in n.defs]
     al = b.term(d[0].ast.value, d[0]) if len(d) == 1 else None
-    ok = isinstance(al, App) and al.fn == "numpy.zeros" and al.args in ((Attr(x, "size"),), (Attr(x, "shape"),), (tm.length(x),))
+    from .common import alloc_dims
+    dims = alloc_dims(al) if al is not None else None
+    ok = isinstance(al, App) and al.fn == "numpy.zeros" and dims is not None and len(dims) == 1 and dims[0] in (Attr(x, "size"), Attr(x, "shape"), tm.length(x),
+                                                                                                             tm.Idx(Attr(x, "shape"), (tm.ZERO,)))
     ctx.check(ok and b.return_term() == Sym(s.base_name), fi, "Z is a fresh zero vector of X's size, fully determined by the class stores, and returned",
               role="tuple:alloc", expected=f"numpy.zeros({x}.size)", found=f"{al}; returns {b.return_term()}")
 
@@ -158,7 +161,7 @@ def r6(ctx):
     ctx.check(rt == comp, fi, "Theta = 1/(2 rho) * Q diag(e) Q^T, returned in compressed form", role="x:assembly", expected="compress((1/(2*rho)) * Q @ diag(e) @ Q.T)",
               found=str(rt)[:120].replace(str(e), "e"))
     ux = ana.func(S_ + "admm_update_x")
-    bx = ana.builder(ux, no_inline=lambda f: True)
+    bx = ana.builder(ux, no_inline=ana.known)
     r_ = bx.return_term()
     args, u, z, Sx = (Sym(p) for p in ux.params)
     want = App(fi.qualname, (Sx, App(ana.func("matrix_compression.reinflate_matrix").qualname, (tm.add(z, tm.neg(u)),)), Attr(args, "rho")))
@@ -198,9 +201,10 @@ def r7(ctx):
 def r8(ctx):
     ana = ctx.ana
     sv = ana.func(S_ + "run_admm_optimization")
-    b = ana.builder(sv, no_inline=lambda f: True)
+    b = ana.builder(sv, no_inline=ana.known)
     cfg, rd = ana.cfg(sv), ana.rd(sv)
     args = Sym(sv.params[0])
+    # the store to <ADMMArguments>.rho may sit in the solver or in a helper extracted from it (effects are inlined)
     rho_store = [s for s in b.stores() if s.attr == "rho" and s.base == args]
     if len(rho_store) != 1:
         raise AnalysisError(f"expected one store to args.rho, found {len(rho_store)}")
@@ -215,14 +219,13 @@ def r8(ctx):
         ctx.check(want is not None and new_rho.args == want, sv, "the callback receives (rho, r_primal, eps_primal, r_dual, eps_dual) in that order",
                   role="rho:callback-args", expected="(args.rho, residual_primal, tolerance_primal, residual_dual, tolerance_dual)",
                   found=", ".join(str(a)[:40] for a in new_rho.args[1:]))
-    # scale = rho_old / rho_new before the store; u = scale * u after
+    # u is rescaled in the same branch
     nu = cfg.node_of(calls_to(ana, sv, ana.func(S_ + "admm_update_u").qualname)[0].node)
     uname = nu.ast.targets[0].id if isinstance(nu.ast, ast.Assign) and isinstance(nu.ast.targets[0], ast.Name) else None
     scaled = None
     for n in cfg.nodes:
         if n.kind == "stmt" and isinstance(n.ast, ast.Assign) and n is not nu and uname in n.defs and cfg.enclosing_loops(n):
-            t = b.term(n.ast.value, n)
-            scaled = (n, t)
+            scaled = (n, b.term(n.ast.value, n))
     if scaled is None:
         ctx.fail(sv, "U is not rescaled after a rho update (the scaled dual variable must follow rho)", role="rho:rescale",
                  expected="u = (rho_old / rho_new) * u")
@@ -232,26 +235,40 @@ def r8(ctx):
     factor = tm.div(t, uold)
     ctx.check(factor == tm.div(Attr(args, "rho"), new_rho), sv, "the rescale factor is rho_old / rho_new", line=n.lineno, role="rho:factor",
               expected=f"args.rho / {str(new_rho)[:30]}...", found=str(factor)[:120])
-    # order: the factor is evaluated before args.rho is overwritten
-    fdefs = []
-    for nm in {x.id for x in ast.walk(n.ast.value) if isinstance(x, ast.Name)}:
-        for d in rd.reaching(n, nm):
-            if d.kind == "stmt" and isinstance(d.ast, ast.Assign) and any(isinstance(x, ast.Attribute) and x.attr == "rho" for x in ast.walk(d.ast.value)):
-                fdefs.append(d)
-    reads_rho_inline = any(isinstance(x, ast.Attribute) and x.attr == "rho" for x in ast.walk(n.ast.value))
-    ok = bool(fdefs) and all(cfg.dominates(d, st.node) for d in fdefs) and not reads_rho_inline
-    if reads_rho_inline:
-        ok = cfg.dominates(n, st.node)
-    ctx.check(ok, sv, "rho_old is read before args.rho is overwritten", line=n.lineno, role="rho:order", expected="scale = args.rho / new_rho; args.rho = new_rho",
-              found="the factor reads args.rho after the store" if not ok else "")
-    ctx.check(cfg.dominates(st.node, n) or cfg.dominates(n, st.node), sv, "the rescale happens in the same branch as the rho update", role="rho:same-branch")
+    ctx.check(cfg.dominates(st.node, n) or cfg.dominates(n, st.node) or st.node.id == n.id, sv, "the rescale happens in the same branch as the rho update",
+              role="rho:same-branch")
+    # ORDER, decided in the function that actually contains the store: rho_old is read before the store
+    F = ana.prog.functions.get(st.via) if st.via else sv
+    if F is None:
+        raise AnalysisError(f"function {st.via} holding the rho store not found")
+    cF = ana.cfg(F)
+    bF = ana.builder(F, no_inline=ana.known)
+    stores_F = [x for x in bF.stores(inline_effects=False) if x.attr == "rho"]
+    if len(stores_F) != 1:
+        raise AnalysisError(f"{F.qualname}: expected one direct store to .rho, found {len(stores_F)}")
+    sF = stores_F[0]
+    newF = sF.value
+    rhoF = Attr(sF.base, "rho")
+    factor_nodes = []
+    for x in cF.nodes:
+        if x.kind == "stmt" and isinstance(x.ast, (ast.Assign, ast.Return, ast.AnnAssign)) and x.id != sF.node.id:
+            v_ = x.ast.value
+            if v_ is None or not any(isinstance(a, ast.Attribute) and a.attr == "rho" and isinstance(a.ctx, ast.Load) for a in ast.walk(v_)):
+                continue
+            tt = bF.term(v_, x)
+            if isinstance(tt, Poly) and tm.mentions(tt, rhoF) and any(mono and any(a == newF and e < 0 for a, e in mono) for mono, _c in tt.terms):
+                factor_nodes.append(x)
+    ok = bool(factor_nodes) and all(cF.dominates(x, sF.node) for x in factor_nodes)
+    ctx.check(ok, F, "rho_old is read before args.rho is overwritten", line=sF.stmt.lineno, role="rho:order",
+              expected="scale = args.rho / new_rho; args.rho = new_rho",
+              found=f"{len(factor_nodes)} statement(s) form rho/new_rho; " + ("one of them runs after the store" if factor_nodes else "none found before the store"))
 
 
 @rule("C02", "R9", "TERM", "stopping rule: r_p <= eps_p and r_d <= eps_d with the standard residuals; Z_old captured before the Z update", floor=6)
 def r9(ctx):
     ana = ctx.ana
     fi = ana.func(S_ + "check_convergence")
-    b = ana.builder(fi, no_inline=lambda f: True)
+    b = ana.builder(fi, no_inline=ana.known)
     rt = b.return_term()
     args, u, x, z, zo = (Sym(p) for p in fi.params)
     rho = Attr(args, "rho")
@@ -272,7 +289,7 @@ def r9(ctx):
     # solver loop
     sv = ana.func(S_ + "run_admm_optimization")
     cfg, rd = ana.cfg(sv), ana.rd(sv)
-    bs = ana.builder(sv, no_inline=lambda f: True)
+    bs = ana.builder(sv, no_inline=ana.known)
     cz = calls_to(ana, sv, ana.func(S_ + "admm_update_z").qualname)[0]
     nz = cfg.node_of(cz.node)
     loop = cfg.enclosing_loops(nz)[0]
